@@ -225,8 +225,26 @@ fn wild_pos(u: &mut Un, names: &mut Names) -> Node {
     p
 }
 
+/// `any(..)` accepting items that start with one of a few prefixes, usually `.anywhere()`
+fn wild_any(u: &mut Un) -> Node {
+    let prefixes: Vec<String> = match u.below(5) {
+        0 => vec!["-D".into(), "--define=".into()],
+        1 => vec!["+".into()],
+        2 => vec!["@".into(), "x".into()],
+        3 => vec!["-".into()],
+        _ => vec!["--zz".into()],
+    };
+    Node::Any(AnySpec {
+        metavar: (*u.pick(&["ANY", "-DNAME=VAL", "<spec>"])).to_owned(),
+        prefixes,
+        anywhere: u.chance(190),
+        help: maybe_doc(u, 100),
+    })
+}
+
 fn wild_field(u: &mut Un, names: &mut Names, depth: usize) -> Node {
-    let base = match u.weighted(&[8, 2, 2, 2, 1, 1]) {
+    let base = match u.weighted(&[8, 2, 2, 2, 1, 1, 1]) {
+        6 => wild_any(u),
         0 => wild_leaf(u, names),
         1 => {
             let n = 2 + u.below(2);
@@ -235,9 +253,10 @@ fn wild_field(u: &mut Un, names: &mut Names, depth: usize) -> Node {
         2 => {
             // adjacent group; the lead is usually a required named item, sometimes not
             let mut members = Vec::new();
-            members.push(match u.weighted(&[6, 1, 1]) {
+            members.push(match u.weighted(&[6, 1, 1, 2]) {
                 0 => wild_leaf(u, names),
                 1 => Node::Pure("lead".into()),
+                3 => wild_any(u),
                 _ => wild_pos(u, names),
             });
             let k = 1 + u.below(2);
@@ -416,7 +435,7 @@ pub fn make_ambiguous(level: &mut Level, u: &mut Un) {
                 }
             }
             Node::Cmd(cmd) => go(&mut cmd.level.body, id, c),
-            Node::Pos(_) | Node::Pure(_) | Node::Fail(_) => {}
+            Node::Pos(_) | Node::Pure(_) | Node::Fail(_) | Node::Any(_) => {}
             Node::Seq(xs) | Node::Alt(xs) | Node::Adjacent(xs) => {
                 for x in xs {
                     go(x, id, c);
@@ -493,6 +512,15 @@ pub fn gen_wild_argv(u: &mut Un, level: &Level) -> Vec<Vec<u8>> {
             pool.push(n.into_bytes());
         }
     }
+    level.body.walk(true, &mut |n| {
+        if let Node::Any(a) = n {
+            for p in &a.prefixes {
+                pool.push(format!("{}foo=bar", p).into_bytes());
+                pool.push(format!("{}x", p).into_bytes());
+                pool.push(p.clone().into_bytes());
+            }
+        }
+    });
     for l in level.info.help_longs() {
         pool.push(format!("--{}", l).into_bytes());
     }
